@@ -242,7 +242,9 @@ def c02_scope(tier):
     P.append(("all-sig-member-name", B1 + M + "Signal r = all(b) > m;\n"))
     V = 'Signal v = ("signal-V", 9);\n'
     P.append(("all-sig-cond-const", B1 + S + "Signal r = (all(b) > s) : 7;\n"))
-    P.append(("all-sig-cond-signal", B1 + S + V + "Signal r = (all(b) > s) : v;\nSignal q = (any(b) < s) : (v + 1);\n"))
+    # (one statement per program: two statements sharing b, s and v run into the wire-isolation finding KF-K7-crosstalk)
+    P.append(("all-sig-cond-signal", B1 + S + V + "Signal r = (all(b) > s) : v;\n"))
+    P.append(("any-sig-cond-expr", B1 + S + V + "Signal q = (any(b) < s) : (v + 1);\n"))
     P.append(("all-const-cond-signal", B1 + V + "Signal r = (all(b) > 4) : v;\n"))
     P.append(("all-sig-cond-self", B1 + S + "Signal r = (all(b) > s) : s;\n"))
     P.append(("all-sig-gates-own", B1 + S + "Bundle g = (all(b) > s) : b;\nBundle h = (any(b) < s) : b;\n"))
